@@ -272,6 +272,11 @@ def shard(ctx):
             if ctx.mine(k):
                 run_case(ctx, {"input": s, "frag": frag, "container": cont, "scripting": False})
                 ctx.count("directed_cases")
+    # every short token sequence through all six builder configurations (bounded-exhaustive)
+    for q in gen.token_sequences(ctx, 2, 3, 0.4):
+        run_case(ctx, {"input": q, "frag": False, "container": None, "scripting": False})
+        run_case(ctx, {"input": q, "frag": True, "container": ("div", "table", "tr", "select")[len(q) % 4], "scripting": False})
+        ctx.count("sequence_cases")
     n = 0
     idx = ctx.i
     limit = (160000 if ctx.tier == "quick" else 3000000) // ctx.n
@@ -300,6 +305,8 @@ def replay(ctx, case):
 
 
 def finalize(m, v):
+    from .. import gen as _gen
+    _gen.sequences_inconclusive(m)
     c = m["counters"]
     scale = 1.0
     for nm, floor in (("prim:etree.insertBefore", 500), ("prim:dom.insertBefore", 500), ("prim:etree.removeChild", 500),
